@@ -11,9 +11,11 @@ use serde_json::json;
 use std::collections::BTreeSet;
 
 const TARGET_KINDS: [&str; 6] = ["struct", "generic-struct", "unit-enum", "tagged-enum", "newtype", "alias"];
-const POSITIONS: [&str; 19] = [
+const POSITIONS: [&str; 20] = [
     "field", "vec", "option", "map-value", "generic-arg", "variant-payload", "variant-field", "alias-target", "self-box", "param-field", "param-payload", "param-variant-field", "param-alias",
     // two (or three) separately renamed types inside one type expression
+    // a struct variant of an enum with two parameters, the fields mentioning them in the reverse of the declared order
+    "two-params-variant-fields-reversed",
     "pair-both-renamed", "map-key-and-value-renamed", "renamed-holder-of-target", "nested-pair-deep", "payload-pair-both-renamed", "alias-pair-both-renamed",
 ];
 
@@ -27,7 +29,11 @@ pub struct Case {
     pub prefixed: bool,
     /// how the generic parameter of the param-* positions is mentioned
     pub param_carrier: &'static str,
+    /// identifier of the struct variant in the *variant-field positions (helper types are named after it)
+    pub variant_ident: &'static str,
 }
+
+const VARIANT_IDENTS: [&str; 5] = ["S", "URL", "Not_Found", "done", "Sv2x"];
 
 const PARAM_CARRIERS: [&str; 8] = ["option", "bare", "vec", "map-key", "map-value", "array", "box", "holder"];
 
@@ -53,7 +59,8 @@ pub fn gen(ch: &mut Chooser) -> Case {
     let lang = *ch.pick("lang", &ALL_LANGS);
     let prefixed = ch.flag("cfg");
     let param_carrier = if position.starts_with("param-") && position != "param-alias" { *ch.pick("param_carrier", &PARAM_CARRIERS) } else { "option" };
-    Case { kind, renamed, position, referrer_renamed, lang, prefixed, param_carrier }
+    let variant_ident = if position.ends_with("variant-field") || position == "two-params-variant-fields-reversed" { *ch.pick("variant_ident", &VARIANT_IDENTS) } else { "S" };
+    Case { kind, renamed, position, referrer_renamed, lang, prefixed, param_carrier, variant_ident }
 }
 
 fn target_item(c: &Case) -> Item {
@@ -108,6 +115,25 @@ pub fn program(c: &Case) -> File {
     };
     let pair_of = |a: Ty, b: Ty| Ty::Generic("Pair".into(), vec![a, b]);
     let mut referrer = match c.position {
+        "two-params-variant-fields-reversed" => {
+            items.push(g.clone());
+            let u = Ty::Param("U".into());
+            let tp = Ty::Param("T".into());
+            let mut i = Item::enumm(
+                "Referrer",
+                vec![
+                    Variant::new(c.variant_ident, VKind::Struct(vec![
+                        Field::new("second", Ty::Map(Box::new(Ty::Prim("String")), Box::new(Ty::Vec(Box::new(u.clone()))))),
+                        Field::new("first", Ty::Option(Box::new(Ty::Generic("Holder".into(), vec![tp])))),
+                        Field::new("again", u),
+                        Field::new("r", t),
+                    ])),
+                    Variant::new("Unit", VKind::Unit),
+                ],
+            );
+            i.generics = vec!["T".into(), "U".into()];
+            i
+        }
         "pair-both-renamed" => {
             items.push(snd);
             items.push(pair(false));
@@ -146,7 +172,7 @@ pub fn program(c: &Case) -> File {
             Item::strukt("Referrer", vec![Field::new("r", Ty::Generic("Holder".into(), vec![t]))])
         }
         "variant-payload" => Item::enumm("Referrer", vec![Variant::new("P", VKind::Newtype(t)), Variant::new("U", VKind::Unit)]),
-        "variant-field" => Item::enumm("Referrer", vec![Variant::new("S", VKind::Struct(vec![Field::new("r", t)])), Variant::new("U", VKind::Unit)]),
+        "variant-field" => Item::enumm("Referrer", vec![Variant::new(c.variant_ident, VKind::Struct(vec![Field::new("r", t)])), Variant::new("U", VKind::Unit)]),
         "alias-target" => Item::new("Referrer", IKind::Alias(Ty::Vec(Box::new(t)))),
         "param-field" => {
             if c.param_carrier == "holder" {
@@ -168,7 +194,7 @@ pub fn program(c: &Case) -> File {
             if c.param_carrier == "holder" {
                 items.push(g.clone());
             }
-            let mut i = Item::enumm("Referrer", vec![Variant::new("S", VKind::Struct(vec![Field::new("p", carry_param(c)), Field::new("r", t)])), Variant::new("U", VKind::Unit)]);
+            let mut i = Item::enumm("Referrer", vec![Variant::new(c.variant_ident, VKind::Struct(vec![Field::new("p", carry_param(c)), Field::new("r", t)])), Variant::new("U", VKind::Unit)]);
             i.generics = vec!["T".into()];
             i
         }
@@ -303,7 +329,7 @@ pub fn check_case(c: &Case, choices: &[u32], acc: &mut Acc) {
     for (n, site, owner) in &names.referenced {
         acc.judgements += 1;
         // Rust generic parameter names are in scope wherever the backend prints them (declaring them is C10's business)
-        if ["T", "A", "H"].contains(&n.as_str()) {
+        if ["T", "A", "H", "U"].contains(&n.as_str()) {
             continue;
         }
         if !defined.contains(n.as_str()) {
@@ -321,6 +347,26 @@ pub fn check_case(c: &Case, choices: &[u32], acc: &mut Acc) {
             d["site"] = json!(site);
             d["in_definition"] = json!(owner);
             acc.vios.add(Violation { sig: format!("C09|{}|dangling-reference|site={site}|in={owner_role}|{detail_class}", c.lang.name()), detail: d });
+        }
+    }
+    // (3) a reference to a generated helper type instantiates it with the parameters in the helper's declared order
+    for d in &ok.out.defs {
+        if let Def::Enum(e) = d {
+            for v in &e.variants {
+                if let Payload::Inner(TT::Name(n, args)) = &v.payload {
+                    if let Some(helper) = ok.out.structs().find(|s| &s.name == n) {
+                        acc.judgements += 1;
+                        let arg_names: Vec<String> = args.iter().map(|a| a.show()).collect();
+                        if !helper.generics.is_empty() && arg_names.len() == helper.generics.len() && args.iter().all(|a| matches!(a, TT::Name(_, x) if x.is_empty())) && arg_names != helper.generics {
+                            let mut dd = base.clone();
+                            dd["helper"] = json!(n);
+                            dd["helper_declares"] = json!(helper.generics);
+                            dd["reference_passes"] = json!(arg_names);
+                            acc.vios.add(Violation { sig: format!("C09|{}|helper-instantiated-with-permuted-parameters|pos={}", c.lang.name(), c.position), detail: dd });
+                        }
+                    }
+                }
+            }
         }
     }
     acc.outcomes.insert(report::fnv64(&format!("{}|{all_ok}", c.lang.name())));
@@ -359,7 +405,7 @@ pub fn run(args: &[String]) -> i32 {
         report::threads(),
         u64::MAX,
     );
-    merge(&mut rep, "references", accs, &stats, json!({"target_kinds": TARGET_KINDS, "target_renamed": [false, true], "positions": POSITIONS, "generic_parameter_carriers": PARAM_CARRIERS, "referrer_renamed": [false, true], "languages": 6, "configs": 2}));
+    merge(&mut rep, "references", accs, &stats, json!({"target_kinds": TARGET_KINDS, "target_renamed": [false, true], "positions": POSITIONS, "generic_parameter_carriers": PARAM_CARRIERS, "struct_variant_identifiers": VARIANT_IDENTS, "referrer_renamed": [false, true], "languages": 6, "configs": 2}));
     let amb_k = if rep.thorough() { 3 } else { 2 };
     super::common::ambient_family(&mut rep, "ambient_variations", amb_k + 1, |ch| { gen(ch); }, |ch, acc| {
         let c = gen(ch);
